@@ -107,6 +107,12 @@ def stripSign : List Char → Bool × List Char
   | '+' :: r => (false, r)
   | s => (false, s)
 
+/-- `strconv.ParseFloat(s, 32)` reports ErrRange when the value rounds to ±Inf:
+    |v| ≥ MaxFloat32 + ½ulp = 2^128 − 2^103 -/
+def f32Overflow (v : Rat) : Bool :=
+  let lim : Rat := ((2 ^ 128 - 2 ^ 103 : Nat) : Rat)
+  v ≥ lim || v ≤ -lim
+
 def parseFloat (s : List Char) : Option Rat :=
   let (neg, s) := stripSign s
   let ip := s.takeWhile Char.isDigit
@@ -116,17 +122,26 @@ def parseFloat (s : List Char) : Option Rat :=
     | _ => ([], s)
   if ip.isEmpty && fp.isEmpty then none
   else
-    let mant : Rat := ((natOf (ip ++ fp) : Nat) : Rat) / ((10 ^ fp.length : Nat) : Rat)
+    let n := natOf (ip ++ fp)
+    let mant : Rat := ((n : Nat) : Rat) / ((10 ^ fp.length : Nat) : Rat)
     let mant := if neg then -mant else mant
     match s with
-    | [] => some mant
+    | [] => if f32Overflow mant then none else some mant
     | e :: r =>
       if e == 'e' || e == 'E' then
         let (eneg, r) := stripSign r
         let ed := r.takeWhile Char.isDigit
         let r := r.dropWhile Char.isDigit
         if ed.isEmpty || !r.isEmpty then none
-        else some (mant * pow10 eneg (natOf ed))
+        else
+          let ex := natOf ed
+          if n == 0 then some 0
+          -- far outside float32: decided without computing the power (n ≥ 1 has ≤ |ip|+|fp| digits)
+          else if !eneg && ex > fp.length + 60 then none
+          else if eneg && ex > ip.length + 60 then some 0
+          else
+            let v := mant * pow10 eneg ex
+            if f32Overflow v then none else some v
       else none
 
 /-- `parsePoints(dataPoints, nil, isEllipticalArc)` -/
@@ -237,6 +252,19 @@ def smoothCubeLoop (op : Char) : St → List (Pt × Pt) → St × List Op
     let res := smoothCubeLoop op { st with ctl := c2, cur := p, lastKey := op } r
     (res.1, Op.cubicTo ctl c2 p :: res.2)
 
+/-- the loop of case 'a','A'.  `findEllipseCenter` is called with the group's OWN radii and end point; it yields a
+    NaN centre when a radius is 0 or the group's end point is the current point; then `segs = int(NaN)+1` is
+    negative (amd64), no cubic is emitted and the current point stays.  Otherwise `addArc(c.points, …)` draws with
+    group 0's parameters and its last cubic ends at group 0's end point `e0` (arc `o`). -/
+def arcLoop (rel : Bool) (o : Op) (e0 : Pt) : St → List ArcArgs → St × List Op
+  | st, [] => (st, [])
+  | st, g :: r =>
+    let e := if rel then padd st.cur g.p else g.p
+    if g.rx == 0 || g.ry == 0 || e == st.cur then arcLoop rel o e0 st r
+    else
+      let res := arcLoop rel o e0 { st with cur := e0 } r
+      (res.1, o :: res.2)
+
 /-- `addSeg` after `getPoints`: `op` is the command byte, `pts` the parsed numbers -/
 def addSeg (st : St) (op : Char) (pts : List Rat) : Except Err (St × List Op) :=
   if op == 'z' || op == 'Z' then
@@ -305,7 +333,8 @@ def addSeg (st : St) (op : Char) (pts : List Rat) : Except Err (St × List Op) :
       -- every group is drawn by `c.addArc(c.points, …)`: radii, rotation, flags and END POINT of group 0
       let e0 := if op == 'a' then padd st.cur g0.p else g0.p
       let o := Op.arc g0.rx g0.ry g0.rot (g0.large != 0) (g0.sweep != 0) e0
-      .ok ({ st with cur := e0, lastKey := op }, (g0 :: r).map fun _ => o)
+      let res := arcLoop (op == 'a') o e0 st (g0 :: r)
+      .ok ({ res.1 with lastKey := op }, res.2)
     | _ => .error .mismatch
   else .ok ({ st with lastKey := op }, [])   -- "Ignoring svg command"
 
@@ -350,8 +379,8 @@ def parsePath (s : List Char) : Except Err (St × List Op) :=
 /-! ## basic shapes (elements.go) — lengths already resolved to user units -/
 
 /-- float32(4*(√2−1)/3) and float32(√π) as exact rationals -/
-def arcToBezier : Rat := 9265790 / 16777216
-def sqrtPi : Rat := 14868286 / 8388608
+def arcToBezier : Rat := 9265801 / 16777216
+def sqrtPi : Rat := 14868421 / 8388608
 
 /-- `newRect`: `rx_`,`ry_` attribute presence; note `out.ry = parseValue(rx_)` -/
 def rectRadii (rx ry : Option Rat) : Rat × Rat :=
